@@ -14,7 +14,10 @@ applies=no; builds=no; suite=unknown; demo_with=unknown; demo_without=unknown
 if git apply --whitespace=nowarn "$patch" 2>/tmp/sc_$id.apply.log; then applies=yes; fi
 if [ $applies = yes ] && go build ./... >/dev/null 2>&1; then builds=yes; fi
 if [ $builds = yes ]; then
-  go test -mod=mod -json -vet=off -count=1 -timeout 25m ./... > /tmp/sc_$id.suite.json 2>/dev/null
+  # private HOME for the suite run (cmd/teleport's TestInitCmd writes below $HOME/.teleport; several seedchecks run in parallel)
+  gc="$(go env GOCACHE)"; gm="$(go env GOMODCACHE)"; gp="$(go env GOPATH)"; mkdir -p /tmp/sc_$id.home
+  HOME=/tmp/sc_$id.home GOCACHE="$gc" GOMODCACHE="$gm" GOPATH="$gp" go test -mod=mod -json -vet=off -count=1 -timeout 25m ./... > /tmp/sc_$id.suite.json 2>/dev/null
+  rm -rf /tmp/sc_$id.home
   suite="$(python3 - /tmp/sc_$id.suite.json <<'PY'
 import json,sys
 base=json.load(open('/root/.vp/BASELINE.json')); want=set(base['stable_pass']); res={}
